@@ -27,6 +27,8 @@ func init() {
 func runC08(c *Ctx) {
 	m := c.Root()
 	r := c.R
+	// a report that stays in place after a failed attempt is picked up again by a later run
+	c02ReadyGateAs(c, m, "C08.retry")
 	fn := m.Func("internal/upload", "uploader.uploadReportContents")
 	posts := callsIn(fn, "net/http.Post")
 	r.Check("C08.lock", "uploadReportContents/has exactly one post", m.Pos(fn.Pos()), len(posts) == 1, fmt.Sprintf("%d post sites", len(posts)))
@@ -151,6 +153,10 @@ func runC08(c *Ctx) {
 	nRemove := 0
 	for _, cs := range callsIn(fn, "os.Remove") {
 		if argsOf(cs)[0] != ssa.Value(fn.Params[1]) {
+			// anything else that is removed must be the lock: removing the marker ("recorded as
+			// uploaded") makes the next uploader send the week again
+			d := describeArg(cs, 0)
+			r.Check("C08.disposal", "uploadReportContents/removes only the local report and the lock", m.Pos(cs.Pos()), d == ld, "removes "+shortDesc(d))
 			continue
 		}
 		if _, isDefer := cs.(*ssa.Defer); isDefer {
